@@ -107,7 +107,9 @@ func main() {
 					r.Extra["normalisations"] = w.Notes
 				}
 				r.Extra["goarch"] = archName(w)
+				linking[id] = true
 				f(w, r)
+				delete(linking, id)
 			}()
 		}
 		if c := r.Finish(); c > exit {
